@@ -522,6 +522,8 @@ pub fn gen_trace(rng: &mut Rng, input: &[u8], buf: usize, cfg: &TraceCfg) -> Tra
                 8..=15 => 2,
                 16 => rng.urange(6, 40),
                 17 if rng.chance(1, 3) => rng.urange(41, 300),
+                // a retry loop with a generous bound (1000, 1024, 4096, 65535 attempts) is still bounded
+                18 if rng.chance(1, 24) => *rng.pick(&[1001usize, 1025, 1100, 4097, 10_001, 65_537, 70_000]),
                 _ => 1,
             };
             for _ in 0..burst {
